@@ -185,6 +185,9 @@ def shipped_visitors():
     return out
 
 
+_RETURNED = {}
+
+
 def check_no_mutation(a, text):
     snap = copy.deepcopy(a)
     before = decode(a)
@@ -195,6 +198,7 @@ def check_no_mutation(a, text):
             raised = False
         except Exception:
             raised = True
+        _RETURNED[name] = _RETURNED.get(name, 0) + (0 if raised else 1)
         if a != snap or decode(a) != before or repr(a) != rep:
             return ("input-mutated:" + name, "%r (visitor %s)" % (text, "raised" if raised else "returned"))
     return None
@@ -300,8 +304,19 @@ def plan(tier, seed, scale):
              "depth": 3 if tier == "quick" else 4} for i in range(K)]
 
 
+def _typed_trees(depth):
+    """Filters over the harness schema, so that the ORM visitors translate them completely instead of
+    stopping at the first unknown field (the immutability clause needs visitors that run to the end)."""
+    from .. import gen_typed, relational
+    F = gen_typed.Fragment("all", funcs=gen_typed.STRING_FUNCS + gen_typed.DATE_FUNCS + ["round", "floor", "ceiling", "second"],
+                           neg=True, bare_bool=True, null_left=True, dt_offsets="z")
+    return st.one_of(gen_typed.pred(depth, F), relational.rel_pred(2, relational.RelCfg()))
+
+
 def run_task(task, seed, acc):
-    strat = st.tuples(gen_syntax.exprs(task["depth"], gen_syntax.Cfg(full_unicode=False)), st.integers(0, 2 ** 20))
+    strat = st.tuples(st.one_of(gen_syntax.exprs(task["depth"], gen_syntax.Cfg(full_unicode=False)),
+                                gen_syntax.exprs(task["depth"], gen_syntax.Cfg(full_unicode=False)),
+                                _typed_trees(task["depth"])), st.integers(0, 2 ** 20))
     kinds_seen = set()
 
     def one(pair):
@@ -317,3 +332,5 @@ def run_task(task, seed, acc):
 
     hyp_run(strat, one, task["n"], seed * 1000 + task["shard"])
     acc.extra["shipped_visitors"] = [n for n, _ in shipped_visitors()]
+    for n, k in _RETURNED.items():
+        acc.cls("visitor_ran_to_completion_" + n, k)
